@@ -515,6 +515,22 @@ struct Gen
         for (int i = 0; i < len; i++)
         {
             int k = (int)R.range(0, keys) - off, v = (int)R.range(0, 99);
+            // round 3b: one in six operations with an allocation of the storage vector refused (compat build: test
+            // allocator; hosted build: std::allocator, the prefix is inert)
+            if (R.chance(compat ? 16 : 3))
+            {
+                std::string pre = "afail " + S((int)R.below(2)) + " ";
+                switch (R.below(6))
+                {
+                case 0: emit(pre + "mset " + S(k) + " " + S(v)); break;
+                case 1: emit(pre + "mget " + S(k)); break;
+                case 2: emit(pre + "mins " + S(k) + " " + S(v)); break;
+                case 3: emit(pre + "mempl " + S(k) + " " + S(v)); break;
+                case 4: emit(pre + "minit " + S(k) + " " + S(v) + " " + S(k + 1) + " " + S(v + 1)); break;
+                default: emit(pre + "sins " + S(k)); break;
+                }
+                continue;
+            }
             switch (R.below(20))
             {
             case 17: emit(compat || R.chance(60) ? "miter" : R.chance(50) ? "mmisc" : R.chance(50) ? "smisc" : "mview " + S(k)); break;
@@ -587,6 +603,31 @@ struct Gen
                 }
     }
     // every insertion order of up to 4 distinct keys (set + map insert)
+    // round 3b: every insertion path with the first (and the second) allocation of the storage vector refused, the
+    // container used further afterwards
+    void flat_afail(bool compat, const std::string &cmp = "")
+    {
+        for (int k = 0; k < 2; k++)
+        {
+            emit(flat_reset(compat, cmp));
+            std::string pre = "afail " + S(k) + " ";
+            for (int key : {3, 1, 2, 4, 13})
+            {
+                emit(pre + "sins " + S(key));
+                emit(pre + "mins " + S(key) + " " + S(key * 10));
+                emit("siter");
+                emit("miter");
+            }
+            emit(pre + "mset 9 90");
+            emit(pre + "mget 7");
+            emit(pre + "mempl 8 80");
+            emit(pre + "minit 5 50 6 60 5 70");
+            emit("miter");
+            emit(pre + "mset 1 11");
+            emit("msize");
+            emit("ssize");
+        }
+    }
     void flat_orders(bool compat, const std::string &cmp = "")
     {
         std::vector<int> p{1, 2, 3, 4};
@@ -720,6 +761,7 @@ void c02_gen(rng &r, const std::string &tier)
     {
         g.flat_init_dups(c);
         g.flat_orders(c);
+        g.flat_afail(c);
         for (int i = 0; i < (th ? 600 : 40); i++)
             g.flat(c, (int)r.range(20, 80), r.chance(50) ? 5 : 12);
         // long bisections: up to 41 keys (negative ones included) in the set / the map
@@ -733,6 +775,7 @@ void c02_gen(rng &r, const std::string &tier)
                 continue; // hosted only
             g.flat_init_dups(c, cmp, std::string(cmp) == "lastdigit" ? 10 : 1);
             g.flat_orders(c, cmp);
+            g.flat_afail(c, cmp);
             for (int i = 0; i < (th ? 200 : 12); i++)
             {
                 int keys = r.chance(50) ? 12 : 40;
